@@ -21,6 +21,7 @@ func Str(name string, maxLen int, alphabet string) string
 // solver-feasible value.
 func Choose(name string, n int) int
 func Assume(c bool)
+func IsAssumeFalse(r any) bool
 func Assert(c bool, label string)
 func Reach(label string)
 func Note(s string)
